@@ -37,7 +37,8 @@ FUNCTIONS = ['uxarray.grid.grid.Grid.face_areas',
     'uxarray.grid.coordinates._xyz_to_lonlat_rad@arrays',
     'uxarray.grid.coordinates._xyz_to_lonlat_deg@arrays',
     'uxarray.grid.coordinates._normalize_xyz@arrays',
-    'uxarray.grid.coordinates._lonlat_rad_to_xyz@arrays']
+    'uxarray.grid.coordinates._lonlat_rad_to_xyz@arrays',
+    'uxarray.grid.grid.Grid.__init__@class_state']
 STANDINS = ["histories"]
 ASSUMPTIONS = []
 EXPLANATION = ""
